@@ -135,7 +135,10 @@ def run_one(site, outpath, suite_runs=1):
     rc, out = sh(f'git -C {REPO} worktree add -q --detach {wt} HEAD', '/', 60)
     if rc: r['state'] = 'error'; r['msg'] = out[-300:]; return r
     try:
-        apply(site, wt)
+        try:
+            apply(site, wt)
+        except Exception as e:  # /repo's HEAD moved after the site list was computed
+            r['state'] = 'error'; r['msg'] = repr(e)[:200]; return r
         rc, out = sh('go build ./... && go vet -vettool=/bin/true ./... 2>/dev/null; go build ./...', wt, 300)
         if rc: r['state'] = 'nobuild'; return r
         rc, out = sh('go test -vet=off -count=1 ./...', wt, 240)
